@@ -153,8 +153,12 @@ func TestVerif_C05_Leases(t *testing.T) {
 		fail := func(sig, msg string) {
 			rec.Violation(rt, sig, map[string]any{"history": w.log}, "%s; history=%v", msg, w.log)
 		}
-		checkBound := func(l *c05Lease, ttl time.Duration, what string) {
-			now := time.Now()
+		// callAt: clock read before the request that granted ttl was sent. The server computed ttl after callAt, so the
+		// true expiry is at least callAt+ttl; l.issue is read after the issuing request returned, so the lease was issued
+		// no later than that. Both estimates err on the side of the code: the verdict does not depend on how long a
+		// request took (on a loaded machine: many seconds).
+		checkBound := func(l *c05Lease, ttl time.Duration, what string, callAt time.Time) {
+			now := callAt
 			l.lastTTL = ttl
 			if ttl <= 0 {
 				return
@@ -204,10 +208,10 @@ func TestVerif_C05_Leases(t *testing.T) {
 				if maxTTL > 0 && time.Duration(maxTTL)*time.Second < eff {
 					eff = time.Duration(maxTTL) * time.Second
 				}
-				l := &c05Lease{id: r.resp.Secret.LeaseID, issue: before, effMax: eff, renewable: renewable}
+				l := &c05Lease{id: r.resp.Secret.LeaseID, issue: time.Now(), effMax: eff, renewable: renewable}
 				w.leases = append(w.leases, l)
 				w.logf("secret %s ttl=%d max=%d renewable=%v -> ttl %v", mnt, ttl, maxTTL, renewable, r.resp.Secret.TTL)
-				checkBound(l, r.resp.Secret.TTL, "issue")
+				checkBound(l, r.resp.Secret.TTL, "issue", before)
 			},
 			"token": func(rt *rapid.T) {
 				data := map[string]any{"policies": []string{"default"}, "ttl": []string{"20m", "2h", "100h"}[fairIndex(rt, "ttl", 3)]}
@@ -257,10 +261,10 @@ func TestVerif_C05_Leases(t *testing.T) {
 					w.logf("token %s %v -> %v", path, data, r)
 					return
 				}
-				l := &c05Lease{id: "token", isToken: true, token: r.resp.Auth.ClientToken, issue: before, effMax: eff, renewable: true, period: period}
+				l := &c05Lease{id: "token", isToken: true, token: r.resp.Auth.ClientToken, issue: time.Now(), effMax: eff, renewable: true, period: period}
 				w.leases = append(w.leases, l)
 				w.logf("token %s %v -> ttl %v", path, data, r.resp.Auth.TTL)
-				checkBound(l, r.resp.Auth.TTL, "issue")
+				checkBound(l, r.resp.Auth.TTL, "issue", before)
 			},
 			"renew": func(rt *rapid.T) {
 				l := pick(rt, func(l *c05Lease) bool { return true })
@@ -270,6 +274,7 @@ func TestVerif_C05_Leases(t *testing.T) {
 				inc := []int{60, 1800, 7000, 40000, 0}[fairIndex(rt, "increment", 5)]
 				var r rr
 				var ttl time.Duration
+				renewCallAt := time.Now()
 				if l.isToken {
 					r = w.tc.req(logical.UpdateOperation, "auth/token/renew-self", l.token, map[string]any{"increment": inc})
 					if r.ok() && r.resp != nil && r.resp.Auth != nil {
@@ -292,7 +297,7 @@ func TestVerif_C05_Leases(t *testing.T) {
 					fail("expired-lease-renewed", fmt.Sprintf("the lease %s, whose expiry has passed, was renewed (ttl %v)", verifx.Trunc(l.id, 40), ttl))
 				}
 				if r.ok() && ttl > 0 {
-					checkBound(l, ttl, "renew")
+					checkBound(l, ttl, "renew", renewCallAt)
 					if time.Duration(inc)*time.Second > ttl+2*time.Second {
 						nontrivial = true // capped
 					}
